@@ -30,6 +30,10 @@ def rand_list(r, infos, allow_empty=True):
             items.append(r.choice(names))
         elif c < 0.75:
             items.append("#" + r.choice(TAGS))
+        elif c < 0.78:
+            items.append(r.choice(TAGS))                 # a tag word without '#': a (non-existent) checker name
+        elif c < 0.80:
+            items.append("#" + r.choice(names))          # a checker name behind '#': a (non-existent) tag
         elif c < 0.82:
             items.append("nosuchChecker")
         elif c < 0.88:
